@@ -203,7 +203,7 @@ def run_case_generator(model, workdir, cfg=None, timeout=1800):
     return path, dict(model=cfg, cases=n, gen_wall_s=round(time.time() - t0, 1))
 
 
-def run_trace_generator(model, workdir, cfg=None, chunks=8, timeout=1800):
+def run_trace_generator(model, workdir, cfg=None, chunks=8, timeout=1800, observe="all"):
     """TLC prints whole operation sequences (kind = "trace"); they are split into `chunks` ops files, replayed on the real
     clients (observation after every event) and returned as recorded trace files."""
     stage_spec(workdir)
@@ -222,7 +222,7 @@ def run_trace_generator(model, workdir, cfg=None, chunks=8, timeout=1800):
                 traces.append(d["ops"])
     if not traces:
         raise Inconclusive("trace generator %s printed no traces" % model)
-    return replay_traces(traces, workdir, chunks), dict(model=cfg, traces=len(traces), events=sum(len(t) for t in traces),
+    return replay_traces(traces, workdir, chunks, observe), dict(model=cfg, traces=len(traces), events=sum(len(t) for t in traces),
                                                         gen_wall_s=round(time.time() - t0, 1))
 
 
